@@ -49,6 +49,10 @@ class MachineryError(Exception):
     pass
 
 
+class HarnessHang(Exception):
+    """the implementation did not return on the case named in the message"""
+
+
 def log(msg):
     print(msg, flush=True)
 
@@ -206,7 +210,18 @@ def run_harness(prop, tier, seed, outdir):
     os.makedirs(outdir)
     env = dict(ENV)
     env["FU_BINDIR"] = os.path.join(TARGET, "repo", "debug")
-    rc, out = run([FUH, prop, tier, str(seed), outdir], env=env, check=False)
+    # a run of the implementation that does not return would stall the harness: the harness notes the
+    # case it is about to run (outdir/current_case.txt) and the orchestrator gives up after a long while
+    limit = int(os.environ.get("FU_HARNESS_TIMEOUT", 3 * 3600 if tier == "thorough" else 1800))
+    try:
+        rc, out = run([FUH, prop, tier, str(seed), outdir], env=env, check=False, timeout=limit, stdin_path=os.devnull)
+    except subprocess.TimeoutExpired:
+        cur = ""
+        try:
+            cur = open(os.path.join(outdir, "current_case.txt"), encoding="utf-8", errors="replace").read().strip()
+        except OSError:
+            pass
+        raise HarnessHang(cur)
     if rc != 0:
         raise MachineryError("harness failed (%d): %s" % (rc, out[-3000:]))
     cases = []
@@ -316,7 +331,14 @@ def main():
         violations.append(("build", err, {"broken": "build: " + err[:400], "requests": []}))
     else:
         t1 = time.time()
-        cases, stats = run_harness(prop, tier, seed, outdir)
+        try:
+            cases, stats = run_harness(prop, tier, seed, outdir)
+        except HarnessHang as h:
+            req = str(h)
+            path = write_replay(prop, seed, tier, 0, {"kind": "hang", "text": "the implementation did not return", "requests": [req] if req else [], "request": req})
+            log("VIOLATION property=%s replay=%s%s" % (prop, path, "" if req else " no-failing-input-found"))
+            log("  hang: the run did not end within the time limit; last case: %s" % req[:300])
+            return 1
         timing["harness"] = round(time.time() - t1, 1)
         t1 = time.time()
         if only_reqs is not None:
